@@ -18,7 +18,7 @@ CLAIMED = {
          "go/types + go/ssa of x/tools v0.29.0 are trusted; dynamic calls in decoders are not resolved (none today).", "DESIGN.md §4 C03"),
  "C04": ("SSA taint + dominance guard analysis (allocations, loops, constant and untrusted indices, divisions, cursor width) with checked data-structure invariants; nil-guard dominance on optional child fields and nil-able getter results; checked type assertions; must-pass-through rules on the header decoders (size vs header length) and on segment creation; call-graph reachability of explicit panics, who-may-call on storage-sharing reader methods; library-wide error discipline",
          "Structural necessary conditions over everything reachable from the decode / Info / Encode / Size entry points: no explicit panic reachable; every constant index or constant slice bound is dominated by a length test, long enough by construction, or rests on a named invariant that is itself checked; an input-derived index is compared with the length of the slice it selects from (or cannot reach a fixed table length); every division by a non-constant is dominated by a non-zero test or a checked invariant; a slice made in a function is indexed below its length in counted loops; a cursor advanced by an untrusted length is wider than the length; DecodeBoxSR compares the unsigned box size itself with the remaining bytes; every allocation sized by a wide untrusted value (reader results, BoxHeader.Size on the reader path) is dominated by a comparison on that value (also recognised when the value was validated where it was stored into a struct field, under conditions that hold at the allocation); every cycle of a loop that consumes the stream passes an error test of the sticky-error reader, an exit taken on all-zero data, or a bounded counter test; a field holding an optional child box is dereferenced only after a nil test (or a fresh store, a correlated test, or a test at every call site); an unchecked type assertion on a box stands under a box-type-name test for which every registered decoder returns exactly the asserted type; io.ReadAll only on io.LimitReader; no decoder keeps storage of the reader it was given. Not decided: indices computed from non-input values outside counted loops, nil dereferences other than of optional child fields, correctness of a guard's arithmetic beyond the listed forms, time constants.",
-         "taint is flow-insensitive on struct fields (and on the elements of slice-typed fields); for allocations and fixed tables any dominating comparison sharing a taint root counts as a guard; the 14 invariant entries are a frozen table, each with its structural check; call graph VTA.", "DESIGN.md §3 E3/E4, §4 C04"),
+         "taint is flow-insensitive on struct fields (and on the elements of slice-typed fields); for allocations and reading loops a guard is a dominating comparison sharing a taint root that bounds the tainted side from above (arithmetic not checked); taint follows static calls and VTA-resolved dynamic calls; the 14 invariant entries are a frozen table, each with its structural check; call graph VTA.", "DESIGN.md §3 E3/E4, §4 C04"),
  "C05": ("ordering (dominance) and data-dependence obligations over go/ssa for the fragment write/read path; adopt-then-append ownership rule; narrow-accumulator lint",
          "Narrow clauses only: SetTrunDataOffsets dominates every child encode and follows OptimizeTfhdTrun; decode time is set only under a test of the track's first run; appended samples are accounted in mdat; run numbers come from nextTrunNr which is advanced; trun data offsets depend on Moof.Size(), Mdat.HeaderSize(), SizeOfData() and write order; read-side offsets/times/defaults depend on the tfhd/trex/tfdt/trun/mdat quantities the standard names; trun optimisation compares samples with ==/!= only. Not decided: numeric correctness of offsets, arbitrary multi-track interleavings, optimisation correctness.",
          "dependence is intraprocedural SSA data dependence plus return dependence of repository callees (3 levels).", "DESIGN.md §4 C05"),
